@@ -237,13 +237,18 @@ PINNED = [
 KNOWN_GROUPING = "C08-grouping-separator-not-lexed"
 
 
+ORDER = {"flip": False}
+
+
 def pair_case(kind, parts, c1, c2, expect=None, exotic=False):
     """exotic: group the integer parts by the thousands separator also when it is not '.' or ',' (the convention the
     configuration asks for; known finding C08-K1: the lexer splits such literals)"""
     ops = []
     for (d, t) in (c1, c2):
-        ops += [{"op": "set_dec", "v": d}, {"op": "set_thou", "v": t},
-                {"op": "exec", "lang": "en", "text": render(parts, d, t, exotic)}]
+        setters = [{"op": "set_dec", "v": d}, {"op": "set_thou", "v": t}]
+        if ORDER["flip"]:
+            setters.reverse()          # the configuration reached must not depend on the order of the two setters
+        ops += setters + [{"op": "exec", "lang": "en", "text": render(parts, d, t, exotic)}]
     lits = [p for p in parts if isinstance(p, Lit)]
     meta = {"kind": kind, "sensitive": any(l.sensitive() for l in lits), "cfg": [list(c1), list(c2)],
             # syntactic record of what was written: which literals are grouped by which separator in each evaluation
@@ -305,7 +310,9 @@ def generate(rng, tier):
     while len(cases) < n:
         kind, parts = shape(rng)
         c1, c2 = rng.choice(pairs)
+        ORDER["flip"] = rng.random() < 0.5
         cases.append(pair_case(kind, parts, c1, c2))
+    ORDER["flip"] = False
     return cases
 
 
